@@ -73,12 +73,14 @@ pub fn gen_fields(r: &mut Rng) -> Vp9Fields {
         transfer: r.below(8) as u8,
         matrix: r.below(2) as u8,
         full_range: r.below(2) as u8,
-        width: match r.below(4) {
-            0 => r.range(1, 127) as u32,
-            1 => r.range(128, 16383) as u32,
+        width: match r.below(16) {
+            0..=3 => r.range(1, 127) as u32,
+            4..=7 => r.range(128, 16383) as u32,
+            // the header's variable-length integers can code more than 16 bits
+            8 => r.range(65_536, 300_000) as u32,
             _ => r.range(1, 65535) as u32,
         },
-        height: r.range(1, 65535) as u32,
+        height: if r.chance(1, 16) { r.range(65_536, 300_000) as u32 } else { r.range(1, 65535) as u32 },
         render,
     }
 }
